@@ -59,6 +59,12 @@ def run(ctx):
     # the same chains built by the library's constructor (NewCertChain) where the shape allows (blobs on the leaf only)
     fits = [s for s in specs if s and all(c.split(':')[1:] == ['nil', 'nil'] for c in s.split(',')[1:])]
     ctx.both([f'cert.write.new {s}' for s in dict.fromkeys(fits)])
+    # Write to a destination that fails after k bytes, every k, for two chains: Write must not report success for a truncated document
+    for spec in [sp for sp in specs if sp.count(',') == 1 and ':nil:nil' in sp][:1] + [sp for sp in specs if sp.count(',') == 0 and sp != '.'][:1]:
+        ln = ctx.go([f'faultlen cert {spec}'])[0]
+        if ln and ln.startswith('ok '):
+            n_ = int(ln.split(' ')[1])
+            ctx.both([f'fault cert {k_} {mode} {spec}' for k_ in range(0, n_ + 1) for mode in ('short', 'error')])
     files = [unhex(x.split(' ')[1]) for x in g if x and x.startswith('ok ')]
     muts = []
     for f in files[:: (1 if thorough else 4)]:
